@@ -807,9 +807,13 @@ impl ReCompiler {
                         max,
                         match_length,
                     )))
-                } else {
+                } else if min == 0 {
                     // otherwise need to match with nothing
                     Ok(Operation::from(Nothing))
+                } else {
+                    // a zero-width test that must hold at least once:
+                    // repeating it makes no difference
+                    Ok(ret)
                 }
             } else {
                 Ok(Operation::from(Repeat::new(ret, min, max, true)))
